@@ -20,8 +20,27 @@ type gatedSearch struct {
 	holdFrom int                // hold every iteration with depth >= holdFrom (0 = never)
 	entering chan gateEvent     // announced iterations (only those that are held)
 	calls    int                // number of Search calls started
-	serial   int                // identifies the launch a call belongs to (set by the harness)
+	launches []context.Context  // context of every depth-1 call, in order: one per launched analysis
 	onCall   func(depth int)    // optional observer
+}
+
+// launchCount returns how many analyses have made their first (depth 1) call so far.
+func (g *gatedSearch) launchCount() int {
+	g.mu.Lock()
+	defer g.mu.Unlock()
+	return len(g.launches)
+}
+
+// launchIndex returns the ordinal of the analysis a context belongs to, or -1.
+func (g *gatedSearch) launchIndex(ctx context.Context) int {
+	g.mu.Lock()
+	defer g.mu.Unlock()
+	for i, c := range g.launches {
+		if c == ctx {
+			return i
+		}
+	}
+	return -1
 }
 
 type gateEvent struct {
@@ -37,6 +56,9 @@ func newGatedSearch(inner search.Search, holdFrom int) *gatedSearch {
 func (g *gatedSearch) Search(ctx context.Context, sctx *search.Context, b *board.Board, depth int) (uint64, eval.Score, []board.Move, error) {
 	g.mu.Lock()
 	g.calls++
+	if depth == 1 {
+		g.launches = append(g.launches, ctx)
+	}
 	hold := g.holdFrom > 0 && depth >= g.holdFrom
 	cb := g.onCall
 	g.mu.Unlock()
